@@ -27,7 +27,9 @@ pub fn gen_unknown(rng: &mut Rng, n_events_hint: usize, max_codes: u64) -> Vec<U
                 break c;
             }
         };
-        let size = match rng.below(4) {
+        let size = match if rng.chance(1, 12) { 9 } else { rng.below(4) } {
+            // nothing but the command byte
+            9 => 0,
             0 => 1,
             1 => 1 + rng.below(8) as u16,
             2 => 1 + rng.below(600) as u16,
@@ -114,6 +116,12 @@ pub fn gen(seed: u64, tier: Tier) -> ScenarioSpec {
     }
     if rng.chance(1, 2) {
         rec.irregular.perm_pseed = Some(rng.next_u64());
+    }
+    // "any accepted game": below 3.3 the Gecko list and its splitter blocks are just more declared events the
+    // version does not define — the reader takes them in all the same
+    if !L::gte((rec.version[0], rec.version[1]), (3, 3)) && rng.chance(1, 10) {
+        rec.force_gecko = true;
+        rec.gecko = Some(GeckoSpec { len: 1 + rng.below(1500) as u32, pseed: rng.next_u64() });
     }
     // "any accepted game": metadata shapes at the edge of what the reader accepts (many maps, deepest chain)
     match rng.below(40) {
